@@ -761,3 +761,44 @@ Section HistRun.
         * unfold step_okm in Hok2. apply andb_prop in Hok2. destruct Hok2 as [Hok2 _]. apply andb_prop in Hok2. exact (proj2 Hok2).
   Qed.
 End HistRun.
+
+(* ================================================================== *)
+(* the stamp counter stays far below Bevy's MAX_CHANGE_AGE             *)
+(* ================================================================== *)
+
+Section NowBound.
+  Variables (cfg0 : cfg) (nclients : N).
+  Hypothesis Hpol : cfg_policy cfg0 = PAll.
+
+  Theorem now_bound script : forall y,
+    script_okm script = true -> tick_frames script < 2 ^ 31 -> run (sys_init cfg0 nclients) script = Ok y ->
+    sv_now (y_server y) <= sv_tick (y_server y) + (if sv_dirty (y_server y) then 1 else 2).
+  Proof.
+    induction script as [|st t IH] using rev_ind; intros y Hok Hb H.
+    - cbn [run] in H. injection H as <-. cbn. lia.
+    - pose proof Hok as Hok0. rewrite script_okm_app in Hok. apply andb_prop in Hok. destruct Hok as [Hok1 Hok2].
+      unfold script_okm in Hok2. cbn [forallb] in Hok2. rewrite andb_true_r in Hok2.
+      rewrite run_app in H. destruct (run (sys_init cfg0 nclients) t) as [y1| |] eqn:E1; cbn [bind] in H; try discriminate.
+      cbn [run] in H. destruct (sys_step y1 st) as [[y2 o]| |] eqn:E2; cbn [bind] in H; try discriminate.
+      injection H as <-. pose proof (tick_frames_mono t st) as Hm.
+      assert (Hb1 : tick_frames t < 2 ^ 31) by lia.
+      pose proof (IH y1 Hok1 Hb1 eq_refl) as IH1.
+      destruct (is_sframe st) eqn:Esf.
+      + destruct st as [| | | | |tick dt cleanup ops parts| | |]; try discriminate.
+        destruct (run_erun t (sys_init cfg0 nclients) [] y1 E1) as [gs1 Ee1].
+        pose proof (m_run cfg0 nclients Hpol t y1 gs1 Hok1 Hb1 Ee1) as M1.
+        destruct (sframe_step_inv _ _ _ _ _ _ _ _ E2) as (fo & vs & -> & Ef).
+        destruct (server_frame_ticks _ _ _ _ _ _ _ _ _ (mi_lr _ _ _ _ _ M1) Ef) as (T & D & _ & _ & _).
+        destruct (server_frame_core _ _ _ _ _ _ _ _ _ Ef) as (s2 & _ & _ & _ & _ & Hcase).
+        pose proof (mi_tick _ _ _ _ _ M1) as Htk. rewrite tick_frames_snoc in Hb. cbn [is_tick_frame] in Hb.
+        assert (Ht : sv_tick (y_server y2) = if tick then sv_tick (y_server y1) + 1 else sv_tick (y_server y1)).
+        { rewrite T. destruct tick; [|reflexivity]. unfold tick_add. apply N.mod_small. rewrite pow32_val. rewrite pow31_val in Hb. lia. }
+        rewrite D, Ht. destruct Hcase as [(_ & _ & Hd & N1 & _) | (_ & N1 & _)]; rewrite N1.
+        * destruct (sv_dirty (y_server y1)); destruct tick; cbn in Hd; try discriminate; lia.
+        * destruct (sv_dirty (y_server y1)); destruct tick; lia.
+      + destruct (nonframe_fields y1 st y2 o E2 Esf) as [(_ & A & _ & B & C & _) _]. rewrite A, B, C. exact IH1.
+  Qed.
+
+  Lemma max_change_age_far : 2 ^ 31 + 2 < MAX_CHANGE_AGE.
+  Proof. vm_compute. reflexivity. Qed.
+End NowBound.
